@@ -478,9 +478,10 @@ def n3_protocol(F, R, M, roles, byrole):
                 tr = any(True for _ in transport_calls(sg))
                 if callees & sn_ids and not (callees & add_ids) and not tr:
                     own_sn.add(b['id'])
-                elif callees & add_ids and not tr:
+                elif callees & add_ids and not tr and not has_transport_param(b):
+                    # submits but has no transport to kick with: the obligation passes to its caller
                     own_new.add(b['id'])
-                elif tr and b.get('reachable'):
+                elif (tr or has_transport_param(b)) and b.get('reachable'):
                     own_self_contained.add(b['id'])
     opaque_ids = set(roles) | own_sn | own_new | own_self_contained | set(qctor)
 
@@ -580,7 +581,7 @@ def run_typestate(F, R, M, sg, b, add_ids, sn_ids, wait_ids, own_new, idxmap):
     S = sg.sym
     eid = b['id']
     adt = b.get('impl_adt')
-    has_transport = any(True for _ in transport_calls(sg)) or adt_has_transport(F, adt)
+    has_transport = any(True for _ in transport_calls(sg)) or adt_has_transport(F, adt) or has_transport_param(b)
     # alias map for objects created in this function (locals receiving a queue object)
     # state: frozenset of (q, st, info)
     IN = {sg.entry: frozenset()}
@@ -829,6 +830,20 @@ def term_derives_from_call(sg, q, callnode):
 
 
 _adt_tr = {}
+
+
+def has_transport_param(b):
+    """A parameter of the function is (a reference to) a type bound by Transport: the function *can* notify."""
+    tb = set(x[0] for x in b.get('bounds', []) if x[1] == TRANSPORT)
+    for l in b['locals'][1:b['arg_count'] + 1]:
+        ty = l['ty']
+        while ty.startswith('&'):
+            ty = ty[1:].lstrip()
+            if ty.startswith('mut '):
+                ty = ty[4:]
+        if ty in tb:
+            return True
+    return False
 
 
 def adt_has_transport(F, adt):
